@@ -11,10 +11,11 @@ theorem inv_init (c : Cfg) : Inv c init := wf3_init _ _
 theorem wf_save {c : Cfg} (h : 0 < c.ttl) (t : TtlMap) (id : Nat) : KeyWf3 c.ttl c.early (save c t id) :=
   wf3_save h t id
 
-theorem inv_call {c : Cfg} (httl : 0 < c.ttl) {s : St} (h : Inv c s) (o : Outcome) : Inv c (call c s o).1 := by
+theorem inv_call {c : Cfg} (httl : 0 < c.ttl) {s : St} (h : Inv c s) (o : Outcome) (d : Nat) :
+    Inv c (call c s o d).1 := by
   unfold call
   split
-  · cases o <;> first | exact wf_save httl _ _ | exact h
+  · cases o <;> first | exact wf_save httl _ _ | exact wf3_advance h d
   · split
     · exact h
     · split
@@ -23,7 +24,7 @@ theorem inv_call {c : Cfg} (httl : 0 < c.ttl) {s : St} (h : Inv c s) (o : Outcom
         · exact wf3_write_aux h _ _
         · cases o <;> first
             | exact wf3_remove_aux (wf_save httl _ _)
-            | exact wf3_remove_aux (wf3_write_aux h _ _)
+            | exact wf3_remove_aux (wf3_advance (wf3_write_aux h _ _) d)
 
 theorem inv_done {c : Cfg} (httl : 0 < c.ttl) {s : St} (h : Inv c s) (i : Nat) (o : Outcome) :
     Inv c (done c s i o).1 := by
@@ -36,89 +37,132 @@ theorem inv_done {c : Cfg} (httl : 0 < c.ttl) {s : St} (h : Inv c s) (i : Nat) (
 
 theorem inv_step {c : Cfg} (httl : 0 < c.ttl) (s : St) (op : DOp) (h : Inv c s) : Inv c (step c s op).1 := by
   cases op with
-  | call o => exact inv_call httl h o
+  | call o d => exact inv_call httl h o d
   | adv dt => exact wf3_advance h dt
   | done i o => exact inv_done httl h i o
 
-/-- whatever value a call hands out was stored (or produced) at an instant `s ≤ now` with `now < s + ttl` -/
-theorem call_age {c : Cfg} (httl : 0 < c.ttl) {s : St} (h : Inv c s) (o : Outcome) {st id : Nat}
-    (hr : (call c s o).2.res = .fresh st id ∨ (call c s o).2.res = .stored st id) :
-    st ≤ s.t.now ∧ s.t.now < st + c.ttl := by
-  unfold call at hr
-  split at hr
-  · cases o <;> simp at hr <;>
-    · obtain ⟨h1, _⟩ := hr
-      subst h1
-      omega
-  · rename_i stamp id0 inner hc
+@[simp] theorem save_now (c : Cfg) (t : TtlMap) (id : Nat) : (save c t id).now = t.now := rfl
+
+/-- the clock after a call is the instant its answer was handed out -/
+theorem call_now (c : Cfg) (s : St) (o : Outcome) (d : Nat) :
+    (call c s o d).1.t.now = servedAt s.t.now d (call c s o d).2 := by
+  unfold call servedAt
+  split
+  · cases o <;> simp
+  · split
+    · simp
+    · split
+      · simp
+      · split
+        · simp
+        · cases o <;> simp
+
+/-- a value handed out by a call that found nothing stored is the fresh product of its own execution -/
+theorem call_none_value {c : Cfg} {s : St} (o : Outcome) (d : Nat) {st id : Nat} (hc : cached3 s.t = none)
+    (hr : (call c s o d).2.res = .fresh st id ∨ (call c s o d).2.res = .stored st id) :
+    st = s.t.now + d ∧ (call c s o d).2.exec = true ∧ (call c s o d).2.started = false ∧
+      (call c s o d).2.res = .fresh st id := by
+  revert hr
+  unfold call
+  simp only [hc]
+  cases o <;> simp <;> intro h1 h2 <;> simp [h1, h2]
+
+/-- a value handed out by a call that found a result stored is that result, nothing having been executed — or,
+after a foreground refresh, the fresh result of that refresh -/
+theorem call_some_value {c : Cfg} {s : St} (o : Outcome) (d : Nat) {st id stamp id0 inner : Nat}
+    (hc : cached3 s.t = some (stamp, id0, inner))
+    (hr : (call c s o d).2.res = .fresh st id ∨ (call c s o d).2.res = .stored st id) :
+    (st = stamp ∧ (call c s o d).2.res = .stored st id ∧ (call c s o d).2.exec = false) ∨
+    (st = s.t.now + d ∧ (call c s o d).2.res = .fresh st id ∧ (call c s o d).2.exec = true ∧
+      (call c s o d).2.started = true) := by
+  revert hr
+  unfold call
+  simp only [hc]
+  by_cases h1 : s.t.now ≤ inner
+  · rw [if_pos h1]; simp; intro h2 h3; simp [h2, h3]
+  · rw [if_neg h1]
+    by_cases h2 : (s.t.find kAux).isSome = true
+    · rw [if_pos h2]; simp; intro h2 h3; simp [h2, h3]
+    · rw [if_neg h2]
+      cases hb : c.bg
+      · simp only [Bool.false_eq_true, if_false]
+        cases o <;> simp <;> intro h2 h3 <;> simp [h2, h3]
+      · simp; intro h2 h3; simp [h2, h3]
+
+/-- whatever value `(st, id)` a call hands out — fresh after an execution of any duration (also a foreground refresh),
+or from the store — was produced / stored at an instant `st` not after the instant at which it is handed out, and is
+younger than ttl at that instant; a value from the store is handed out at the instant the call began -/
+theorem call_age {c : Cfg} (httl : 0 < c.ttl) {s : St} (h : Inv c s) (o : Outcome) (d : Nat) {st id : Nat}
+    (hr : (call c s o d).2.res = .fresh st id ∨ (call c s o d).2.res = .stored st id) :
+    st ≤ servedAt s.t.now d (call c s o d).2 ∧ servedAt s.t.now d (call c s o d).2 < st + c.ttl ∧
+    ((call c s o d).2.res = .fresh st id → st = servedAt s.t.now d (call c s o d).2) ∧
+    ((call c s o d).2.res = .stored st id → (call c s o d).2.exec = false) := by
+  cases hc : cached3 s.t with
+  | none =>
+    obtain ⟨h1, h2, _, h4⟩ := call_none_value o d hc hr
+    unfold servedAt
+    rw [h2, h4]
+    simp
+    omega
+  | some p =>
+    obtain ⟨stamp, id0, inner⟩ := p
     have hs := cached3_spec h hc
-    have key : ∀ r : Res, (r = .fresh st id ∨ r = .stored st id) → r = .stored stamp id0 →
-        st ≤ s.t.now ∧ s.t.now < st + c.ttl := by
-      intro r h1 h2
-      subst h2
-      simp at h1
-      obtain ⟨h3, _⟩ := h1
-      subst h3
-      exact ⟨hs.2.1, hs.2.2.1⟩
-    split at hr
-    · exact key _ hr rfl
-    · split at hr
-      · exact key _ hr rfl
-      · split at hr
-        · exact key _ hr rfl
-        · cases o
-          · exact key _ hr rfl
-          · simp at hr
-          · simp at hr
-          · exact key _ hr rfl
-          · simp at hr
+    have hb := hs.2.1
+    have hy := hs.2.2.1
+    unfold servedAt
+    rcases call_some_value o d hc hr with ⟨h1, h2, h3⟩ | ⟨h1, h2, h3, _⟩
+    · subst h1; rw [h3, h2]; simp; exact ⟨hb, hy⟩
+    · rw [h3, h2]; simp; omega
 
 /-- a stored result that is not older than `early_ttl` is handed out without executing anything and
-without touching the state -/
-theorem call_young {c : Cfg} {s : St} (h : Inv c s) (o : Outcome) {st id x : Nat}
+without touching the state (immediately: no time passes) -/
+theorem call_young {c : Cfg} {s : St} (h : Inv c s) (o : Outcome) (d : Nat) {st id x : Nat}
     (hc : cached3 s.t = some (st, id, x)) (hy : s.t.now ≤ st + c.early) :
-    call c s o = (s, ⟨.stored st id, false, false⟩) := by
+    call c s o d = (s, ⟨.stored st id, false, false⟩) := by
   have hs := cached3_spec h hc
   unfold call
   simp only [hc]
   have : s.t.now ≤ x := by rw [hs.1]; exact hy
   simp [this]
 
-/-- a call that finds a stored result answers with it, unless it is a failing foreground refresh -/
-theorem call_from_store {c : Cfg} {s : St} (o : Outcome) {st id x : Nat}
-    (hc : cached3 s.t = some (st, id, x)) (hyp : c.bg = true ∨ o.raises = false) :
-    (call c s o).2.res = .stored st id := by
+/-- a call that finds a stored result answers with it — or, when it waited for a foreground refresh, with what that
+refresh produced; so unless a foreground refresh raises, the answer is the stored result or the refreshed one -/
+theorem call_from_store {c : Cfg} {s : St} (o : Outcome) (d : Nat) {st id x : Nat}
+    (hc : cached3 s.t = some (st, id, x)) :
+    ((call c s o d).2.res = .stored st id ∧ (call c s o d).2.exec = false) ∨
+    (c.bg = false ∧ (call c s o d).2.exec = true ∧ (call c s o d).2.started = true ∧
+      (call c s o d).2.res = o.result (s.t.now + d) s.nexec) := by
   unfold call
   simp only [hc]
   split
-  · rfl
+  · exact Or.inl ⟨rfl, rfl⟩
   · split
-    · rfl
+    · exact Or.inl ⟨rfl, rfl⟩
     · split
-      · rfl
+      · exact Or.inl ⟨rfl, rfl⟩
       · rename_i hbg
-        rcases hyp with hyp | hyp
-        · exact absurd hyp hbg
-        · cases o <;> first | rfl | (simp [Outcome.raises] at hyp)
+        right
+        refine ⟨by simpa using hbg, ?_⟩
+        cases o <;> simp [Outcome.result]
 
-/-- only an execution with outcome `ok` changes what is stored under the result's key: a call whose execution
+/-- only an execution with outcome `ok` changes the entry under the result's key: a call whose execution
 fails, is turned down by the condition or fails in its store step leaves it as it was -/
-theorem call_main {c : Cfg} (hearly : 0 < c.early) (s : St) (o : Outcome) (ho : o ≠ .ok) :
-    (call c s o).1.t.m kMain = s.t.m kMain ∧ (call c s o).1.t.now = s.t.now := by
+theorem call_main {c : Cfg} (hearly : 0 < c.early) (s : St) (o : Outcome) (d : Nat) (ho : o ≠ .ok) :
+    (call c s o d).1.t.m kMain = s.t.m kMain := by
   have hw : (s.t.write kAux (.tok 1) (some c.early)).m kMain = s.t.m kMain := by
     rw [write_m _ _ _ hearly]; simp
   unfold call
   split
-  · cases o <;> first | exact absurd rfl ho | exact ⟨rfl, rfl⟩
+  · cases o <;> first | exact absurd rfl ho | rfl
   · split
-    · exact ⟨rfl, rfl⟩
+    · rfl
     · split
-      · exact ⟨rfl, rfl⟩
+      · rfl
       · split
-        · exact ⟨hw, rfl⟩
+        · exact hw
         · cases o <;> first
             | exact absurd rfl ho
-            | (refine ⟨?_, rfl⟩; simp only []; rw [remove_m]; simpa using hw)
+            | (simp only []; rw [remove_m]; simpa using hw)
 
 theorem done_main {c : Cfg} (s : St) (i : Nat) (o : Outcome) (ho : o ≠ .ok) :
     (done c s i o).1.t.m kMain = s.t.m kMain ∧ (done c s i o).1.t.now = s.t.now := by
@@ -129,31 +173,29 @@ theorem done_main {c : Cfg} (s : St) (i : Nat) (o : Outcome) (ho : o ≠ .ok) :
       | exact absurd rfl ho
       | (refine ⟨?_, rfl⟩; simp only []; rw [remove_m]; simp)
 
-/-- the answer of a call that finds nothing stored: the result of its own execution or the exception of its
-store step -/
-theorem call_empty {c : Cfg} {s : St} (o : Outcome) (hc : cached3 s.t = none) :
-    (call c s o).2.exec = true ∧
-    ((o = .ok ∨ o = .rejected) → (call c s o).2.res = .fresh s.t.now s.nexec) ∧
-    (∀ st l, o = .storeFails st l → (call c s o).2.res = .storeErr l) := by
+/-- the answer of a call that finds nothing stored: the result of its own execution (stamped with the instant it
+finished) or the exception of its store step -/
+theorem call_empty {c : Cfg} {s : St} (o : Outcome) (d : Nat) (hc : cached3 s.t = none) :
+    (call c s o d).2.exec = true ∧
+    ((o = .ok ∨ o = .rejected) → (call c s o d).2.res = .fresh (s.t.now + d) s.nexec) ∧
+    (∀ st l, o = .storeFails st l → (call c s o d).2.res = .storeErr l) := by
   unfold call
   simp only [hc]
   cases o <;> simp
 
-/-- whenever the function runs inside a call, the caller is handed what that execution produced — its result, its
-exception, the exception of its store step — or, when it was a foreground refresh that raised nothing, the stored
-result the refresh was started for -/
-theorem call_answer (c : Cfg) (s : St) (o : Outcome) (hx : (call c s o).2.exec = true) :
-    ((call c s o).2.started = false ∧ cached3 s.t = none ∧ (call c s o).2.res = o.result s.t.now s.nexec) ∨
-    ((call c s o).2.started = true ∧
-      ((o.raises = true ∧ (call c s o).2.res = o.result s.t.now s.nexec) ∨
-       (o.raises = false ∧ ∃ st id x, cached3 s.t = some (st, id, x) ∧ (call c s o).2.res = .stored st id))) := by
+/-- whenever the function runs inside a call — because nothing was stored, or as a foreground refresh — the caller is
+handed what that execution produced: its result (stamped with the instant it finished), its exception, or the
+exception of its store step -/
+theorem call_answer (c : Cfg) (s : St) (o : Outcome) (d : Nat) (hx : (call c s o d).2.exec = true) :
+    (call c s o d).2.res = o.result (s.t.now + d) s.nexec ∧
+    (((call c s o d).2.started = false ∧ cached3 s.t = none) ∨
+     ((call c s o d).2.started = true ∧ c.bg = false ∧ ∃ st id x, cached3 s.t = some (st, id, x) ∧ x < s.t.now)) := by
   revert hx
   unfold call
   cases hc : cached3 s.t with
   | none =>
     simp only []
     intro _
-    left
     cases o <;> simp [Outcome.result]
   | some p =>
     obtain ⟨st, id, x⟩ := p
@@ -167,8 +209,9 @@ theorem call_answer (c : Cfg) (s : St) (o : Outcome) (hx : (call c s o).2.exec =
         cases hb : c.bg
         · simp only [Bool.false_eq_true, if_false]
           intro _
-          right
-          cases o <;> simp [Outcome.raises, Outcome.result]
+          have : x < s.t.now := by omega
+          have hex : ∃ st_1 id_1 x_1, (st = st_1 ∧ id = id_1 ∧ x = x_1) ∧ x_1 < s.t.now := ⟨st, id, x, ⟨rfl, rfl, rfl⟩, this⟩
+          cases o <;> simp [Outcome.result] <;> exact hex
         · simp
 
 /-! ### at most one refresh at a time -/
@@ -181,12 +224,12 @@ def Single (c : Cfg) (s : St) : Prop :=
 /-- the hypothesis "a refresh completes within early_ttl": whenever a call is made, every refresh in
 flight was started less than `early_ttl` ago -/
 def Timely (c : Cfg) (s : St) (op : DOp) : Prop :=
-  ∀ o, op = .call o → ∀ x ∈ s.inflight, s.t.now < x.2 + c.early
+  ∀ o d, op = .call o d → ∀ x ∈ s.inflight, s.t.now < x.2 + c.early
 
 theorem single_init (c : Cfg) : Single c init := Or.inl rfl
 
-theorem single_call {c : Cfg} (hearly : 0 < c.early) {s : St} (h : Single c s) (o : Outcome)
-    (ht : Timely c s (.call o)) : Single c (call c s o).1 := by
+theorem single_call {c : Cfg} (hearly : 0 < c.early) {s : St} (h : Single c s) (o : Outcome) (d : Nat)
+    (ht : Timely c s (.call o d)) : Single c (call c s o d).1 := by
   unfold call
   split
   · cases o <;> exact h
@@ -201,7 +244,7 @@ theorem single_call {c : Cfg} (hearly : 0 < c.early) {s : St} (h : Single c s) (
           · exact h
           · exfalso
             have hlive : s.t.now < ts + c.early := by
-              have := ht o rfl (id, ts) (by simp [h1])
+              have := ht o d rfl (id, ts) (by simp [h1])
               simpa using this
             have : s.t.find kAux = some ⟨v, some (ts + c.early)⟩ :=
               find_some.mpr ⟨h2, live_some.mpr hlive⟩
@@ -231,7 +274,7 @@ theorem single_done {c : Cfg} {s : St} (h : Single c s) (i : Nat) (o : Outcome) 
 theorem single_step {c : Cfg} (hearly : 0 < c.early) (s : St) (op : DOp) (h : Single c s) (ht : Timely c s op) :
     Single c (step c s op).1 := by
   cases op with
-  | call o => exact single_call hearly h o ht
+  | call o d => exact single_call hearly h o d ht
   | adv dt =>
     rcases h with h | ⟨id, ts, v, h1, h2⟩
     · exact Or.inl h
